@@ -76,7 +76,11 @@ PROPS["C04"] = dict(
               "entries with an outcome counter per registration: exhaustive over all histories up to length 4/5 on a 15-step "
               "alphabet, seeded random histories of 3-40 steps over 3 sessions x 5 ids with a deadline/sweep grid built to hit "
               "equal deadlines, same-second and rounding boundaries; plus generated concurrent programs (2-8 goroutines) run "
-              "under the race detector with schedule-independent invariants. Schedules are sampled, not enumerated."),
+              "under the race detector with schedule-independent invariants, a one-key hammer (8 goroutines registering, acknowledging with right "
+              "and wrong types and sweeping ONE key: every registration resolved exactly once and never before its deadline), and a fresh-second "
+              "hammer on both list implementations (the first two entries of 100000+ deadline-seconds arrive from two goroutines at the same moment "
+              "with different sub-second deadlines and are removed again: the final sweep must report nothing; kept: each exactly once). "
+              "Schedules are sampled, not enumerated."),
         note=("Trusted: Go toolchain and race detector, rapid, the table model in harness/c04. 'To the second' is read as: a sweep at "
               "now must expire an entry if now-deadline >= 1s, must not if deadline-now >= 1s, either in between."),
         technique="model-based property testing (exhaustive small scope + rapid histories) and randomized concurrent stress under -race",
@@ -106,6 +110,7 @@ PROPS["C04"] = dict(
         dict(name="concurrent", pkg="c04", run="TestConcurrent", race=True, checks=dict(quick=1600, thorough=8000),
              shards=dict(quick=4, thorough=16), timeout=dict(quick=300, thorough=1800)),
         dict(name="hammer", pkg="c04", run="TestHammerOneKey", race=True, shards=dict(quick=2, thorough=8), timeout=dict(quick=300, thorough=1800)),
+        dict(name="freshseconds", pkg="c04", run="TestHammerFreshSeconds", shards=dict(quick=2, thorough=8), timeout=dict(quick=300, thorough=1800)),
     ],
 )
 
@@ -558,6 +563,7 @@ PROPS["C20"] = dict(
         # the in-flight table's concurrent programs live in the C04 package; they are part of this property too
         dict(name="inflight", pkg="c04", run="TestConcurrent", race=True, checks=dict(quick=1600, thorough=8000), shards=dict(quick=4, thorough=16), timeout=dict(quick=300, thorough=1800)),
         dict(name="hammer", pkg="c04", run="TestHammerOneKey", race=True, shards=dict(quick=2, thorough=8), timeout=dict(quick=300, thorough=1800)),
+        dict(name="freshseconds", pkg="c04", run="TestHammerFreshSeconds", shards=dict(quick=2, thorough=8), timeout=dict(quick=300, thorough=1800)),
         # same key from several goroutines, where the outcome is still schedule independent (no race detector: the window is what matters)
         dict(name="sharedkey", pkg="c20", run="TestSharedKey", shards=dict(quick=5, thorough=10), timeout=dict(quick=300, thorough=1800)),
     ],
